@@ -1,6 +1,7 @@
 package __PKG__
 
 import (
+	"github.com/cosmos/cosmos-sdk/types/query"
 	sdk "github.com/cosmos/cosmos-sdk/types"
 	"github.com/medibloc/panacea-core/v2/x/pnft/types"
 )
@@ -238,7 +239,7 @@ func vHarnessDenomsByOwner() {
 	for _, d := range res.Denoms {
 		vCheck(d.Owner == s.A, "C12: denoms by owner returns no denom of another owner")
 	}
-	all, aerr := s.k.Denoms(sdk.WrapSDKContext(s.ctx), &types.QueryDenomsRequest{})
+	all, aerr := s.k.Denoms(sdk.WrapSDKContext(s.ctx), &types.QueryDenomsRequest{Pagination: &query.PageRequest{Limit: 10}})
 	vCheck(aerr == nil && len(all.Denoms) == 2, "C12: the full denom listing shows each denom once")
 }
 
